@@ -14,12 +14,14 @@ Python `dict` = association list in insertion order; a `set` that is iterated = 
 namespace SnootyVerif.Diag
 
 /-- a diagnostic: class name (what `silence_diagnostics` matches on), zero-based line, severity
-(1 info, 2 warning, 3 error = `Diagnostic.Level`), and an opaque tag standing for message/identity. -/
+(1 info, 2 warning, 3 error = `Diagnostic.Level`), and `oid`, the identity of the Python object (`id(d)`):
+the same `Diagnostic` object put into several lists has the same `oid` everywhere, two objects that merely
+compare equal have different ones. -/
 structure D where
   cls : String
   line : Nat
   sev : Nat
-  tag : Nat
+  oid : Nat
 deriving DecidableEq, Repr
 
 abbrev FileId := String
@@ -57,8 +59,23 @@ def storeSet (m : List Out) (o : Out) : List Out :=
 
 def pagesStore (outs : List Out) : List Out := outs.foldl storeSet []
 
-/-- `{v[1]: list(v[2]) for v in self._parsed.values()}`: several outputs of one source collapse, last wins. -/
-def parsedResult (parsed : List Out) : DMap :=
+/-- `seen = {id(d) for d in merged}; merged.extend(d for d in diagnostics if id(d) not in seen)` -/
+def accum (merged : List D) (ds : List D) : List D :=
+  merged ++ ds.filter (fun d => !((merged.map (·.oid)).contains d.oid))
+
+/-- one iteration of the fixed code:
+`result = {}; for _, source, diagnostics in self._parsed.values(): merged = result.setdefault(source, []); …`
+— every output of a source contributes, each object once, first-seen order. -/
+def parsedStep (acc : DMap) (o : Out) : DMap :=
+  match acc.lookup o.src with
+  | some l => dictSet acc o.src (accum l o.ds)
+  | none => dictSet acc o.src (accum [] o.ds)
+
+def parsedResult (parsed : List Out) : DMap := parsed.foldl parsedStep []
+
+/-- the code before the fix: `{v[1]: list(v[2]) for v in self._parsed.values()}` — several outputs of one
+source collapse, last wins. -/
+def parsedResultOld (parsed : List Out) : DMap :=
   parsed.foldl (fun acc o => dictSet acc o.src o.ds) []
 
 /-- `for key, diagnostics in self._orphan_diagnostics.items(): …` -/
@@ -76,9 +93,17 @@ def mergeOthers (acc : DMap) (order : List FileId) (others : List DMap) : DMap :
 /-- `all_keys`, in first-occurrence order (one admissible iteration order of the Python set). -/
 def allKeys (others : List DMap) : List FileId := (others.flatMap keys).eraseDups
 
-/-- `PageDatabase.merge_diagnostics(*others)` -/
+/-- the part of `merge_diagnostics` after the per-source dict `base` has been built -/
+def mergeFrom (base : DMap) (orphan : DMap) (order : List FileId) (others : List DMap) : DMap :=
+  mergeOthers (addOrphan base orphan) order others
+
+/-- `PageDatabase.merge_diagnostics(*others)` (fixed code) -/
 def mergeDiagnostics (parsed : List Out) (orphan : DMap) (order : List FileId) (others : List DMap) : DMap :=
-  mergeOthers (addOrphan (parsedResult parsed) orphan) order others
+  mergeFrom (parsedResult parsed) orphan order others
+
+/-- `PageDatabase.merge_diagnostics(*others)` before the fix (last output wins) -/
+def mergeDiagnosticsOld (parsed : List Out) (orphan : DMap) (order : List FileId) (others : List DMap) : DMap :=
+  mergeFrom (parsedResultOld parsed) orphan order others
 
 /-- `filter_diagnostics(config, diagnostics)` with `S = config.silence_diagnostics` -/
 def filterDiagnostics (S : List String) (ds : List D) : List D :=
@@ -93,7 +118,22 @@ def getAll (m : DMap) (f : FileId) : List D := m.flatMap (fun e => if e.1 = f th
 def parsedAll (parsed : List Out) (f : FileId) : List D :=
   parsed.flatMap (fun o => if o.src = f then o.ds else [])
 
-/-- the list of the last output of source `f` -/
+/-- first occurrences by object identity, in order, appended to `acc` -/
+def dedupInto (acc : List D) : List D → List D
+  | [] => acc
+  | d :: t => if (acc.map (·.oid)).contains d.oid then dedupInto acc t else dedupInto (acc ++ [d]) t
+
+/-- what the fixed comprehension holds for source `f` -/
+def parsedUnion (parsed : List Out) (f : FileId) : List D :=
+  parsed.foldl (fun l o => if o.src = f then accum l o.ds else l) []
+
+/-- "a list never holds the same object twice" -/
+def OutputsNodup (parsed : List Out) : Prop := ∀ o ∈ parsed, (o.ds.map (·.oid)).Nodup
+
+/-- "the identity determines the object" (over the diagnostics of a build) -/
+def IdsFaithful (ds : List D) : Prop := ∀ a ∈ ds, ∀ b ∈ ds, a.oid = b.oid → a = b
+
+/-- the list of the last output of source `f` (what the code before the fix kept) -/
 def parsedLast (parsed : List Out) (f : FileId) : Option (List D) :=
   parsed.foldl (fun acc o => if o.src = f then some o.ds else acc) none
 
